@@ -25,3 +25,22 @@ func (tb *Table) VerifC13PartItems() [][][]byte {
 	}
 	return out
 }
+
+// VerifC13SetInMerge sets or clears the isInMerge mark of the i-th part - the mark a part carries while a background
+// merge reads it - so that the harness can run the purge of dropped series in that situation deterministically.
+func (tb *Table) VerifC13SetInMerge(i int, v bool) bool {
+	tb.partsLock.Lock()
+	defer tb.partsLock.Unlock()
+	if i < 0 || i >= len(tb.parts) {
+		return false
+	}
+	tb.parts[i].isInMerge = v
+	return true
+}
+
+// VerifC13PartCount is len(tb.parts).
+func (tb *Table) VerifC13PartCount() int {
+	tb.partsLock.Lock()
+	defer tb.partsLock.Unlock()
+	return len(tb.parts)
+}
